@@ -10,7 +10,7 @@ consistency invariant; per-node blocks/gap degree; disco_order permutation prope
 import random
 import re
 
-from .. import model
+from .. import model, treeview
 from . import common as cm
 
 ID = "C16"
@@ -26,7 +26,7 @@ ASSUMPTIONS = ["the report format of GapDegree/PosTags/SentenceCount.done() is p
 
 
 def budget(tier):
-    return 800 if tier == "quick" else 40000
+    return 800 if tier == "quick" else 30000
 
 
 def generate(seed, tier):
@@ -42,7 +42,9 @@ def generate(seed, tier):
     return {"A": A, "B": B, "fmt": fmt, "layout": rng.randrange(1 << 30),
             "shuffle": rng.randrange(1 << 30), "io_seed": rng.randrange(1 << 30),
             "schedule": cm.gen_schedule(rng, 2, 3 * (len(A) + len(B)) + 6),
-            "mode": rng.choice(["left", "rightd"])}
+            "mode": rng.choice(["left", "rightd"]),
+            "edit": rng.choice(["root_attach", "root_attach", "punctuation_root",
+                                "punctuation_delete"])}
 
 
 def histograms(tb):
@@ -89,7 +91,7 @@ EXT = {"export": ".export", "tigerxml": ".xml", "discobrackets": ".dbr", "bracke
 
 def execute(sc, sim):
     st = cm.Stats()
-    st.declare("node_gap_degree_2plus", "gaps_at_several_levels", "unary_node",
+    st.declare("edit_changed_gap_degree", "node_gap_degree_2plus", "gaps_at_several_levels", "unary_node",
                "two_task_instances_interleaved", "discontinuous_tree_refused_by_bracket_writer",
                "disco_order_nonidentity")
     viols = []
@@ -173,11 +175,15 @@ def execute(sc, sim):
                 ["build", "x", s, sc["shuffle"] + j], ["gnew", "g"], ["extract", "x", "g"],
                 ["gcf", "g"],
                 ["build", "b", s, sc["shuffle"] + j], ["trans", "b", "negra_mark_heads", {}],
-                ["trans", "b", "binarize", {}], ["call", "disco_order", "b", sc["mode"]]]
+                ["trans", "b", "binarize", {}], ["call", "disco_order", "b", sc["mode"]],
+                # the same tree object queried, changed in place, and queried again
+                ["build", "q", s, sc["shuffle"] + j], ["call", "gap_degree", "q"],
+                ["call", "nodefns", "q"], ["trans", "q", sc.get("edit", "root_attach"), {}],
+                ["call", "gap_degree", "q"], ["call", "nodefns", "q"]]
     obs = sim.run({"sessions": [{"id": "t", "ops": ops, "on_error": "continue"}]})
     st.add_obs(obs)
     recs = obs["sessions"].get("t", [])
-    per = 14
+    per = 20
     for j, s in enumerate(AB):
         r = recs[j * per:(j + 1) * per]
         if len(r) < per:
@@ -195,7 +201,6 @@ def execute(sc, sim):
         if "exc" in nf:
             return done(sc, st, [cm.viol("C16/node-functions/raised/%s" % nf["exc"])])
         dump = r[0]["ok"]
-        from .. import treeview
         nt = treeview.node_tokens(dump)
         for nid, g, blocks in nf["ok"]:
             runs = model.runs(nt[nid])
@@ -228,6 +233,32 @@ def execute(sc, sim):
                                          got=do["ok"], mode=sc["mode"])])
         if do["ok"] != list(range(1, n + 1)):
             st.probe("disco_order_nonidentity")
+    # query - edit in place - query again
+    for j, s in enumerate(AB):
+        r = recs[j * per:(j + 1) * per]
+        if len(r) < per or any("exc" in x for x in r[14:20]):
+            continue
+        after = r[17]["ok"]
+        if after is None or treeview.wellformed(after):
+            continue
+        nt = treeview.node_tokens(after)
+        idx = treeview.index(after)
+        want = max(len(model.runs(nt[n_["id"]])) - 1 for n_ in after["nodes"] if n_["c"])
+        st.check("requery_after_in_place_edit")
+        if want != model.gap_degree(s):
+            st.probe("edit_changed_gap_degree")
+        if r[18]["ok"] != want:
+            return done(sc, st, [cm.viol("C16/gap_degree/stale-after-in-place-edit",
+                                         edit=sc.get("edit", "root_attach"), expected=want,
+                                         got=r[18]["ok"], before=r[15]["ok"], sentence=j)])
+        for nid, g, blocks in r[19]["ok"]:
+            if nid in nt and idx[nid]["c"]:
+                runs = model.runs(nt[nid])
+                if g != len(runs) - 1 or blocks != runs:
+                    return done(sc, st, [cm.viol("C16/node-functions/stale-after-in-place-edit",
+                                                 edit=sc.get("edit", "root_attach"),
+                                                 expected=[len(runs) - 1, runs],
+                                                 got=[g, blocks], sentence=j)])
     return done(sc, st, viols)
 
 
